@@ -21,7 +21,24 @@ Definition wf_item_raw (k : ckind) (it : item) : bool :=
 (** an item of a container value inside the domain of the round-trip theorems *)
 Definition wf_items (k : ckind) (items : list item) : bool := zip316_wf k items.
 
-Definition wf_addr (a : addr) : bool := spec_addr_ok a.
+(** address values as the public constructors build them: well-formed, and the network already
+    normalised (Regtest -> Test for Sprout / P2PKH / P2SH) *)
+Definition wf_addr (a : addr) : bool :=
+  spec_addr_ok a && match a with ARaw n k _ => net_eqb (norm_net k n) n | AUni _ _ => true end.
+
+(** guard of the Base58Check round trip: the produced string is not, by accident, also a valid
+    Bech32 / Bech32m string (the parser tries those encodings first and would answer NotZcash);
+    no such value is known and none can be found by search (probability about 2^-60 per value) *)
+Definition not_bech32b (s : list N) : bool :=
+  match b32_decode B32m ZIP316_CODE_LENGTH s, b32_decode B32 BECH32_CODE_LENGTH s, b32_decode B32m BECH32_CODE_LENGTH s with
+  | None, None, None => true
+  | _, _, _ => false
+  end.
+Definition enc_guard (a : addr) (o : sres) : bool :=
+  match a, o with
+  | ARaw _ k _, Ok s => if spec_shared k then not_bech32b s else true
+  | _, _ => true
+  end.
 
 Definition wf_case (c : case) : bool :=
   match c with
@@ -32,6 +49,6 @@ Definition wf_case (c : case) : bool :=
   | CUEnc k _ items t _ _ => wf_items k items && wf_tbl t
   | CUDec _ s t _ _ => is_str s && wf_tbl t
   | CCtor _ k d _ => (len d =? spec_raw_len k) && is_bytes d
-  | CEnc a t _ _ => wf_addr a && wf_tbl t
+  | CEnc a t o _ => wf_addr a && wf_tbl t && enc_guard a o
   | CParse s t _ _ => is_str s && wf_tbl t
   end.
